@@ -58,6 +58,29 @@ theorem facts_spend_clause :
     accountStorePendingBatchCalls = ["s.DB.PendingBatchSnapshot"] ∧
     fundingDeletePendingBatchCalls = ["m.cfg.DB.DeletePendingBatch"] := by decide
 
+/-- **The order record moves as a whole.**  `updateOrder` and `copyOrder` decode the fixed-size order AND its TLV
+stream (so the in-memory order carries every optional term) and then rewrite ALL keys of the order sub-bucket
+into the destination: the order itself, its minimum match size, its TLV stream and (bids) its node tier; the
+event goes to the MAIN order bucket.  This is what lets the model move `Ord` records (incl. `minMatch`, `tier`,
+`extras`) as units, so that "completion applies exactly the staged version" is about full orders. -/
+theorem facts_order_keys :
+    updateOrderStores = [["storeEventTX", "orderBucket", "evt"], ["storeOrderTX", "dst", "nil"],
+      ["storeOrderMinUnitsMatchTX", "dst", "o.Details().MinUnitsMatch"], ["storeOrderTlvTX", "dst", "o"],
+      ["storeOrderMinNoderTierTX", "dst", "bidOrder.MinNodeTier"]] ∧
+    copyOrderStores = [["storeOrderTX", "dst", "nil"], ["storeOrderTlvTX", "dst", "o"],
+      ["storeOrderMinNoderTierTX", "dst", "nodeTier"], ["storeOrderMinUnitsMatchTX", "dst", "minUnitsMatch"]] ∧
+    updateOrderDecodes = ["DeserializeOrder(r)", "deserializeOrderTlvData(o)"] ∧
+    copyOrderDecodes = ["DeserializeOrder(r)", "deserializeOrderTlvData(o)"] ∧
+    getOrderDecodes = ["DeserializeOrder(r)", "deserializeOrderTlvData(o)"] := by decide
+
+/-- modifiers never touch the fixed terms of an order -/
+theorem applyOMods_fixed (ms : List OMod) (o : Ord) : (applyOMods ms o).fixed = o.fixed := by
+  induction ms generalizing o with
+  | nil => rfl
+  | cons m r ih =>
+    have : applyOMods (m :: r) o = applyOMods r (m.apply o) := rfl
+    rw [this, ih]; cases m <;> rfl
+
 /-! ## single operations -/
 
 /-- **Staging never changes what the trader sees** – whether the call succeeds or fails. -/
@@ -439,7 +462,7 @@ def exAcct : Acct := { value := 1000, expiry := 144, state := 3, bkey := 0, opTx
                        tx := 2, version := 0 }
 
 def exPre : List Op :=
-  [.addAccount 1 exAcct, .submitOrder 2 ⟨0, 10, 10, 1⟩, .submitOrder 3 ⟨0, 5, 5, 1⟩]
+  [.addAccount 1 exAcct, .submitOrder 2 { state := 0, unfilled := 10, units := 10, minMatch := 2, isBid := true, tier := 2, extras := 5 }, .submitOrder 3 { state := 0, unfilled := 5, units := 5, minMatch := 1 }]
 
 def exDb : DB := run DB.init exPre
 
@@ -448,10 +471,11 @@ example : NoPending exDb := ⟨by decide, by decide, by decide, by decide⟩
 example : staged (step exDb (.stage exStage)).1 ≠ none := by decide
 example : Coh (step exDb (.stage exStage)).1 :=
   (step_refines exDb (C06_histories exPre).2 (.stage exStage)).2
-/-- completion really changes the visible state in the example (account 1, order 2) and leaves order 3 -/
+/-- completion really changes the visible state in the example (account 1, order 2 – a bid with non-default
+minimum match size, node tier and TLV extras, all preserved) and leaves order 3 -/
 example : let d := (step (step exDb (.stage exStage)).1 .complete).1
-    lookup 2 d.orders = some ⟨2, 4, 10, 1⟩ ∧ lookup 3 d.orders = some ⟨0, 5, 5, 1⟩ ∧
-    (lookup 1 d.accounts).map (·.state) = some 8 ∧ lookup 2 exDb.orders = some ⟨0, 10, 10, 1⟩ ∧
+    lookup 2 d.orders = some { state := 2, unfilled := 4, units := 10, minMatch := 2, isBid := true, tier := 2, extras := 5 } ∧ lookup 3 d.orders = some { state := 0, unfilled := 5, units := 5, minMatch := 1 } ∧
+    (lookup 1 d.accounts).map (·.state) = some 8 ∧ lookup 2 exDb.orders = some { state := 0, unfilled := 10, units := 10, minMatch := 2, isBid := true, tier := 2, extras := 5 } ∧
     d.snaps.length = 1 := by decide
 /-- a failing element at the second position: error and identity -/
 example : (step exDb (.stage { exStage with orders := [2, 9], orderMods := [[], []] })).2 = some .noOrder := by
